@@ -75,7 +75,7 @@ def mk_cfg(t, d, th=1):
 
 
 def make_engine(schedule, chunk, chains=1, kernels=1, needs_history=(False, False), seed=0, store_kernel_states=False, codes=None,
-                position_keys=None, use_key=False, model_states=None, minimize_transition_infos=False):
+                position_keys=None, use_key=False, model_states=None, minimize_transition_infos=False, share_config_objects=False):
     """Engine built directly (chunk size under our control). Model: dict state {'p0','p1'} with log-prob 0."""
     ks = [RecordingKernel([f"p{i}"], needs_history=needs_history[i], codes=None if codes is None else codes[i], use_key=use_key) for i in range(kernels)]
     model = gs.DictInterface(lambda s: 0.0)
@@ -85,7 +85,12 @@ def make_engine(schedule, chunk, chains=1, kernels=1, needs_history=(False, Fals
     if model_states is None:
         model_states = {f"p{i}": jnp.arange(chains, dtype=jnp.float32) * 100.0 + i * 1000.0 for i in range(2)}
     seeds = jax.random.split(jax.random.PRNGKey(seed), chains)
-    return Engine(seeds=seeds, model_states=model_states, kernel_sequence=KernelSequence(ks), epoch_configs=[mk_cfg(*c) for c in schedule],
+    cfgs = [mk_cfg(*c) for c in schedule]
+    if share_config_objects:  # `[slow] * 3`: consecutive epochs with equal settings share ONE EpochConfig object
+        for j in range(1, len(cfgs)):
+            if schedule[j] == schedule[j - 1]:
+                cfgs[j] = cfgs[j - 1]
+    return Engine(seeds=seeds, model_states=model_states, kernel_sequence=KernelSequence(ks), epoch_configs=cfgs,
                   jitted_sample_duration=chunk, model=model, position_keys=position_keys, store_kernel_states=store_kernel_states, show_progress=False,
                   minimize_transition_infos=minimize_transition_infos)
 
